@@ -4,7 +4,8 @@ CONSTANTS
   BadVars = {"zz"}
   MaxVer = 100000
   Kinds = {}
+  Objs = {}
   Variant = "ok"
-INVARIANTS Fresh CachesCurrent
+INVARIANTS TypeOK Fresh CachesCurrent CopyIndependent
 POSTCONDITION TraceAccepted
 CHECK_DEADLOCK FALSE
